@@ -23,7 +23,9 @@ def fbMatrix (x : List K) (P : Nat) : Mat K :=
     if i < np then vec P (fun k => nth x (i + P - 1 - k))
     else vec P (fun k => conj (nth x (i - np + k + 1))))
 
-/-- argument validation of `eigen` (before any computation); `nsig` may be negative in the API -/
+/-- argument validation of `eigen` (before any computation); `nsig` may be negative in the API.  `methodOk` stands for the
+    value tests that do not involve `nsig`: the method name is 'music' or 'ev', a supplied threshold is `≥ 1`, and the criterion
+    name is 'aic' or 'mdl' when it is the rule in force (all of them `ValueError`s raised before the size assertion) -/
 def eigenValidate (methodOk : Bool) (nsig : Option Int) (hasThreshold : Bool) (N P : Nat) : Except String Unit :=
   if !methodOk then .error "value"
   else if nsig.isSome && hasThreshold then .error "value"
